@@ -272,6 +272,7 @@ def run_line(case, ctx):
         o = orders[0][:]
         rng.shuffle(o)
         orders.append(o)
+    cd_scale = 0.0      # sum of the spans' |CD|: positive and negative dispersion spans may cancel to ~0 in total
     for o in orders:
         els = build_line([spans[i] for i in o], equipment)
         si = make_si(carriers)
@@ -284,12 +285,15 @@ def run_line(case, ctx):
             c = check_accumulation(ctx, e, contribution(e))
             if c is not None:
                 anchors(ctx, e, c)
+                if o is orders[0]:
+                    cd_scale += float(np.max(np.abs(c.cd)))
         results.append(attach.Snap(si))
         ctx.count('order_permutations')
     r0 = results[0]
     for o, r in zip(orders[1:], results[1:]):
         for k in ('cd', 'latency', 'pmd', 'pdl'):
-            if rel_dev(getattr(r, k), getattr(r0, k)) > 1e-12:
+            if (k == 'cd' and float(np.max(np.abs(r.cd - r0.cd))) > 1e-12 * max(cd_scale, 1e-300)) or \
+                    (k != 'cd' and rel_dev(getattr(r, k), getattr(r0, k)) > 1e-12):
                 ctx.violation('order-dependence', f'{k} depends on the span order: {getattr(r0, k)[0]:.12e} vs '
                               f'{getattr(r, k)[0]:.12e} for order {o}', {'spans': spans})
     # a per-frequency table is a set of pairs: the same line with every table listed by increasing frequency
@@ -308,7 +312,8 @@ def run_line(case, ctx):
         rc = attach.Snap(si)
         ctx.count('table_order_checks')
         for k in ('cd', 'latency', 'pmd', 'pdl', 'pch'):
-            if rel_dev(getattr(rc, k), getattr(r0, k)) > 1e-12:
+            if (k == 'cd' and float(np.max(np.abs(rc.cd - r0.cd))) > 1e-12 * max(cd_scale, 1e-300)) or \
+                    (k != 'cd' and rel_dev(getattr(rc, k), getattr(r0, k)) > 1e-12):
                 ctx.violation('table-order-dependence', f'{k} at the end of the line depends on the order in which a '
                               f'per-frequency table lists its points: {getattr(r0, k)[0]:.12e} vs '
                               f'{getattr(rc, k)[0]:.12e} with sorted tables', {'spans': spans})
